@@ -236,6 +236,11 @@ func (l *VegasLimit) OnSample(startTime int64, rtt int64, inFlight int, didDrop 
 	if l.rttNoLoad.Get() == 0 || float64(rtt) < l.rttNoLoad.Get() {
 		l.logger.Debugf("Update RTT No Load to %d ms from %d ms", rtt/1e6, int64(l.rttNoLoad.Get())/1e6)
 		l.rttNoLoad.Add(float64(rtt))
+		if didDrop && rtt <= 0 {
+			// a drop that measured nothing (e.g. a drop-only window of the windowed limit) cannot seed the baseline - 0 means
+			// "unset" - so every such sample would end here and a run of them would never lower the limit: still back off
+			l.updateEstimatedLimit(startTime, rtt, inFlight, didDrop)
+		}
 		return
 	}
 
@@ -248,7 +253,10 @@ func (l *VegasLimit) shouldProbe() bool {
 }
 
 func (l *VegasLimit) updateEstimatedLimit(startTime int64, rtt int64, inFlight int, didDrop bool) {
-	queueSize := int(math.Ceil(l.estimatedLimit * (1 - l.rttNoLoad.Get()/float64(rtt))))
+	queueSize := 0
+	if rtt > 0 {
+		queueSize = int(math.Ceil(l.estimatedLimit * (1 - l.rttNoLoad.Get()/float64(rtt))))
+	}
 
 	var newLimit float64
 	// Treat any drop (i.e timeout) as needing to reduce the limit
